@@ -395,16 +395,24 @@ func (fr *frame) executePhis() []ssa.Instruction {
 }
 
 func (fr *frame) jump(to *ssa.BasicBlock) {
-	if to.Index <= fr.block.Index {
-		if fr.backEdges == nil {
-			fr.backEdges = map[int]int{}
-		}
-		fr.backEdges[to.Index]++
-		if fr.backEdges[to.Index] > fr.p.unwind {
-			panic(unwindFailure{fmt.Sprintf("loop in %s (block %d) exceeded unwind bound %d", fr.fn, to.Index, fr.p.unwind)})
-		}
-	}
 	fr.prevBlock, fr.block = fr.block, to
+}
+
+// countSymbolicBranch enforces the unwinding bound: a branch site whose
+// condition is symbolic may be decided at most 'unwind' times per frame
+// activation (loops with concrete control flow terminate as they do
+// natively and are only limited by the step budget).
+func (fr *frame) countSymbolicBranch() {
+	if fr.backEdges == nil {
+		fr.backEdges = map[int]int{}
+	}
+	fr.backEdges[fr.block.Index]++
+	if fr.backEdges[fr.block.Index] > fr.p.unwind {
+		panic(unwindFailure{fmt.Sprintf("symbolic branch in %s (block %d) decided more than %d times in one activation", fr.fn, fr.block.Index, fr.p.unwind)})
+	}
+	if len(fr.p.decs) > fr.p.eng.maxDecisions {
+		panic(unwindFailure{fmt.Sprintf("more than %d decisions on one path (in %s)", fr.p.eng.maxDecisions, fr.fn)})
+	}
 }
 
 func (fr *frame) runDefer(d *deferred) {
@@ -557,6 +565,9 @@ func (p *Path) visitInstr(fr *frame, instr ssa.Instruction) int {
 			panic(unsupported{"branch on poisoned/non-bool value"})
 		}
 		succ := 1
+		if !c.IsConst() {
+			fr.countSymbolicBranch()
+		}
 		if p.branch(c) {
 			succ = 0
 		}
